@@ -216,6 +216,39 @@ func (c13) Gen(r *Rng, tier string, emit func(string, Tok)) {
 			emit("todata", L(I(3), ToTok(*d), I(int64(r.Bits(13))), ToTok(*pkt)))
 		}
 	}
+	// 3b. several sections of one table type in a unit that share table_id and every syntax-header field (extension,
+	//     version, current/next, section numbers) and differ only in their bodies — e.g. EIT-other sections for the
+	//     same service_id on two transport streams: each is a section of its own and must be delivered
+	for k := 0; k < 60*scale; k++ {
+		gi := 2 + r.Intn(3) // SDT, NIT, EIT
+		n := r.Range(2, 3)
+		var ss []*astits.PSISection
+		for j := 0; j < n; j++ {
+			sec := psiGens[gi](r, r.Intn(2))
+			if j > 0 && sec.Syntax != nil && ss[0].Syntax != nil {
+				sec.Header.TableID = ss[0].Header.TableID
+				h := *ss[0].Syntax.Header
+				sec.Syntax.Header = &h
+				// the table_id_extension is also a field of the decoded body
+				if dd := sec.Syntax.Data; dd != nil {
+					if dd.EIT != nil {
+						dd.EIT.ServiceID = h.TableIDExtension
+					}
+					if dd.NIT != nil {
+						dd.NIT.NetworkID = h.TableIDExtension
+					}
+					if dd.SDT != nil {
+						dd.SDT.TransportStreamID = h.TableIDExtension
+					}
+				}
+			}
+			ss = append(ss, sec)
+		}
+		d := psiUnit(ss...)
+		bs := psiRefEncodeUnit(d, nil)
+		valid("valid-same-header-sections", d, bs)
+		emit("todata", L(I(3), ToTok(*d), I(int64(r.Bits(13))), ToTok(*genPacket(r))))
+	}
 	// 4. reserved bits are ignored by a decoder
 	for k := 0; k < 120*scale; k++ {
 		psiRefRsvMode = 2 + r.U64()>>1
